@@ -36,20 +36,34 @@ func VerifC09RemovedStaysRemoved() {
 	ts := w.vwObj(2, object.TypeTombstone, 14)
 	ts.AssociateDeleted(obj.GetID())
 	vrt.Assume(sh.Put(obj, nil) == nil)
-	vrt.Assume(sh.Put(ts, nil) == nil)
+	// the removal: a tombstone, or a drop (the garbage mark the engine's Delete
+	// puts, e.g. for a redundant copy or an operator's request)
+	dropped := vrt.Bool("droppedInsteadOfTombstoned")
+	what := "a removed object"
+	if dropped {
+		what = "a dropped object"
+		vrt.Assume(sh.MarkGarbage(obj.GetContainerID(), []oid.ID{obj.GetID()}, GarbageMarkDefault) == nil)
+	} else {
+		vrt.Assume(sh.Put(ts, nil) == nil)
+	}
 	w.reverseIteration = vrt.Bool("blobsIteratedInReverse")
 
 	readable := func() bool {
 		_, err := sh.Get(obj.Address(), false)
 		return err == nil
 	}
+	collected := false // a GC pass has processed the removal
 	orphan := false // the object's blob survived its deletion (failed or interrupted blob step)
 	observe := func(when string) {
 		if orphan {
-			vrt.Assert(!readable(), "a removed object is never readable again (its blob survived a failed or interrupted deletion): "+when)
+			vrt.Assert(!readable(), what+" is never readable again (its blob survived a failed or interrupted deletion): "+when)
 			return
 		}
-		vrt.Assert(!readable(), "a removed object is never readable again: "+when)
+		if dropped && !collected {
+			vrt.Assert(!readable(), what+" is never readable again (not yet collected, the mark exists in the metadata only): "+when)
+			return
+		}
+		vrt.Assert(!readable(), what+" is never readable again: "+when)
 	}
 	observe("right after the tombstone")
 
@@ -70,6 +84,7 @@ func VerifC09RemovedStaysRemoved() {
 	crashed := vrt.Run(func() { sh.VerifGC(w.epoch.E) })
 	deletionDisturbed := crashed || blob.deleteFails
 	blob.crashy, blob.deleteFails = false, false
+	collected = true
 	if crashed {
 		vrt.Reach("crashed")
 	}
